@@ -1101,6 +1101,30 @@ class _Canon(ast.NodeTransformer):
             return it.args
         return None
 
+    def _names_generator(self, n):
+        # P51: [.. for l in ('a', 'b') for e in getattr(o, l)] -> [.. for e in o.a + o.b]   (l used nowhere else)
+        gens = list(n.generators)
+        for q in range(len(gens) - 1):
+            g, h = gens[q], gens[q + 1]
+            if isinstance(g.target, ast.Name) and isinstance(g.iter, (ast.Tuple, ast.List)) and g.iter.elts and not g.ifs and not g.is_async \
+                    and all(isinstance(e, ast.Constant) and isinstance(e.value, str) and e.value.isidentifier() for e in g.iter.elts) \
+                    and isinstance(h.iter, ast.Call) and isinstance(h.iter.func, ast.Name) and h.iter.func.id == "getattr" and len(h.iter.args) == 2 \
+                    and isinstance(h.iter.args[1], ast.Name) and h.iter.args[1].id == g.target.id:
+                l = g.target.id
+                others = [x for part in [n.elt if hasattr(n, "elt") else None] + [y for gg in gens[q + 1:] for y in [gg.target] + gg.ifs] + [gg.iter for gg in gens[q + 2:]] if part is not None
+                          for x in ast.walk(part) if isinstance(x, ast.Name) and x.id == l]
+                if others:
+                    continue
+                parts = [ast.Attribute(value=copy.deepcopy(h.iter.args[0]), attr=e.value, ctx=ast.Load()) for e in g.iter.elts]
+                it = parts[0]
+                for pp in parts[1:]:
+                    it = ast.BinOp(left=it, op=ast.Add(), right=pp)
+                h.iter = ast.copy_location(it, h.iter)
+                n.generators = gens[:q] + gens[q + 1:]
+                self.count += 1
+                return self._names_generator(n)
+        return n
+
     def _split_products(self, n):
         # P46: [.. for k, i in product(A, B)] -> [.. for k in A for i in B]
         gens = []
@@ -1170,7 +1194,8 @@ class _Canon(ast.NodeTransformer):
 
     def _comp(self, n):
         n = self._project(n)
-        return self._split_products(n)
+        n = self._split_products(n)
+        return self._names_generator(n)
 
     visit_ListComp = _comp
     visit_GeneratorExp = _comp
@@ -2260,6 +2285,113 @@ def append_loops_to_comprehensions(tree):
     return count
 
 
+def unroll_class_body_tables(prog):
+    """P50: members generated in the class body from a literal table -
+          for name, a, b in TABLE:  locals()[name] = property(lambda self, a=a, b=b: EXPR)      (or  = lambda self, ..: EXPR)
+       become the definitions they generate: `@property def <name>(self): return EXPR` with the record's constants written in."""
+    from .model import FunctionInfo
+    count = 0
+    for m in prog.modules.values():
+        for cls in [n for n in m.tree.body if isinstance(n, ast.ClassDef)]:
+            consts = {t.id: st.value for st in cls.body if isinstance(st, ast.Assign) and len(st.targets) == 1 for t in st.targets if isinstance(t, ast.Name)}
+            ci = m.classes.get(cls.name)
+            for loop in [st for st in cls.body if isinstance(st, ast.For)]:
+                table = loop.iter if isinstance(loop.iter, (ast.Tuple, ast.List)) else consts.get(loop.iter.id) if isinstance(loop.iter, ast.Name) else None
+                if not isinstance(table, (ast.Tuple, ast.List)) or not table.elts or loop.orelse or len(loop.body) != 1:
+                    continue
+                tnames = [loop.target.id] if isinstance(loop.target, ast.Name) else [e.id for e in loop.target.elts] if isinstance(loop.target, ast.Tuple) and all(isinstance(e, ast.Name) for e in loop.target.elts) else None
+                st = loop.body[0]
+                if tnames is None or not (isinstance(st, ast.Assign) and len(st.targets) == 1 and isinstance(st.targets[0], ast.Subscript) and isinstance(st.targets[0].value, ast.Call)
+                                          and isinstance(st.targets[0].value.func, ast.Name) and st.targets[0].value.func.id in ("locals", "vars") and isinstance(st.targets[0].slice, ast.Name)
+                                          and st.targets[0].slice.id in tnames):
+                    continue
+                v = st.value
+                is_prop = isinstance(v, ast.Call) and isinstance(v.func, ast.Name) and v.func.id == "property" and len(v.args) == 1 and isinstance(v.args[0], ast.Lambda)
+                lam = v.args[0] if is_prop else v if isinstance(v, ast.Lambda) else None
+                if lam is None or not lam.args.args:
+                    continue
+                made = []
+                ok = True
+                for rec in table.elts:
+                    vals = [rec] if isinstance(loop.target, ast.Name) else list(rec.elts) if isinstance(rec, ast.Tuple) and len(rec.elts) == len(tnames) else None
+                    if vals is None or not all(isinstance(x, ast.Constant) or (isinstance(x, ast.Tuple) and all(isinstance(y, ast.Constant) for y in x.elts)) for x in vals):
+                        ok = False
+                        break
+                    bind = dict(zip(tnames, vals))
+                    name = bind[st.targets[0].slice.id]
+                    if not (isinstance(name, ast.Constant) and isinstance(name.value, str) and name.value.isidentifier()):
+                        ok = False
+                        break
+                    # lambda defaults `a=_a` carry the record's fields into the body
+                    params = lam.args.args
+                    nd = len(lam.args.defaults)
+                    sub = {}
+                    for q, prm in enumerate(params):
+                        if q >= len(params) - nd:
+                            d = lam.args.defaults[q - (len(params) - nd)]
+                            if isinstance(d, ast.Name) and d.id in bind:
+                                sub[prm.arg] = bind[d.id]
+                            else:
+                                ok = False
+                    free = [prm for prm in params if prm.arg not in sub]
+
+                    class S(ast.NodeTransformer):
+                        def visit_Name(self, x):
+                            if x.id in sub and isinstance(x.ctx, ast.Load):
+                                return ast.copy_location(copy.deepcopy(sub[x.id]), x)
+                            if x.id in bind and isinstance(x.ctx, ast.Load):
+                                return ast.copy_location(copy.deepcopy(bind[x.id]), x)
+                            return x
+                    body = S().visit(copy.deepcopy(lam.body))
+                    fd = ast.FunctionDef(name=name.value, args=ast.arguments(posonlyargs=[], args=[ast.arg(arg=prm.arg) for prm in free], vararg=None, kwonlyargs=[], kw_defaults=[], kwarg=None, defaults=[]),
+                                         body=[ast.Return(value=body)], decorator_list=[ast.Name(id="property", ctx=ast.Load())] if is_prop else [], returns=None, type_comment=None, type_params=[])
+                    made.append(ast.copy_location(fd, loop))
+                if not ok or not made:
+                    continue
+                idx = cls.body.index(loop)
+                cls.body[idx:idx + 1] = made
+                # `del _name, _table` after the loop refers to names that no longer exist
+                cls.body[:] = [x for x in cls.body if not (isinstance(x, ast.Delete) and all(isinstance(t, ast.Name) and t.id in tnames for t in x.targets))]
+                if ci is not None:
+                    for fd in made:
+                        ci.methods[fd.name] = FunctionInfo(fd, m, cls=ci)
+                count += len(made)
+        if count:
+            ast.fix_missing_locations(m.tree)
+    return count
+
+
+def merge_adjacent_reassignments(tree):
+    """P52: `x = A` directly followed by `x = F(x)` (x a plain local, A pure, x read in F only) -> `x = F(A)` - a parameter an inlined
+    helper re-binds (`table = getattr(self, table)`) becomes one definition."""
+    count = 0
+    for n in ast.walk(tree):
+        for fld in ("body", "orelse", "finalbody"):
+            lst = getattr(n, fld, None)
+            if not (isinstance(lst, list) and lst and isinstance(lst[0], ast.stmt)):
+                continue
+            i = 0
+            while i + 1 < len(lst):
+                a, b = lst[i], lst[i + 1]
+                if isinstance(a, ast.Assign) and isinstance(b, ast.Assign) and len(a.targets) == 1 and len(b.targets) == 1 and isinstance(a.targets[0], ast.Name) \
+                        and isinstance(b.targets[0], ast.Name) and a.targets[0].id == b.targets[0].id and _is_pure(a.value) \
+                        and isinstance(a.value, (ast.Constant, ast.Name, ast.Attribute)):
+                    x = a.targets[0].id
+                    uses = [y for y in ast.walk(b.value) if isinstance(y, ast.Name) and y.id == x]
+                    if uses:
+                        class S(ast.NodeTransformer):
+                            def visit_Name(self, y):
+                                if y.id == x and isinstance(y.ctx, ast.Load):
+                                    return ast.copy_location(copy.deepcopy(a.value), y)
+                                return y
+                        b.value = S().visit(b.value)
+                        del lst[i]
+                        count += 1
+                        continue
+                i += 1
+    return count
+
+
 def canonicalise(prog):
     _CLASS_NAMES.clear()
     _CLASS_NAMES.update(prog.classes)
@@ -2280,6 +2412,7 @@ def canonicalise(prog):
             c.count += flatten_else_after_exit(m.tree)
         if os.environ.get("RKVERIF_P49", "1") == "1":
             c.count += append_loops_to_comprehensions(m.tree)
+        c.count += merge_adjacent_reassignments(m.tree)
         c.visit(m.tree)
         c.count += _default_then_override(m.tree)
         c.count += _name_opti_handle(m.tree)
